@@ -24,12 +24,30 @@ def draw_collection(ch, max_images=6, sizes=(60, 200, 300, 520, 700)):
     cw = sizes[ch.draw(len(sizes), kind="canvas_w")]
     chh = sizes[ch.draw(len(sizes), kind="canvas_h")]
     n = 1 + ch.draw(max_images, kind="n_images")
+    # layout 0: independent random rectangles; 1: one input covering (almost) the whole canvas - hence whole
+    # tiles - with the others lying on top of it; 2: a regular grid of abutting / slightly overlapping cells
+    layout = ch.draw(3, kind="layout")
     rects = []
     for k in range(n):
-        w = 1 + ch.draw(cw, kind="rect_w")
-        h = 1 + ch.draw(chh, kind="rect_h")
-        c0 = ch.draw(cw - w + 1, kind="rect_x")
-        r0 = ch.draw(chh - h + 1, kind="rect_y")
+        if layout == 1 and k == 0:
+            w = cw - ch.draw(min(cw, 8), kind="rect_w")
+            h = chh - ch.draw(min(chh, 8), kind="rect_h")
+        elif layout == 2:
+            gx = 1 + (n > 1) + (n > 4)
+            gy = (n + gx - 1) // gx
+            cwid, chei = cw // gx, chh // gy
+            ov = ch.draw(3, kind="grid_overlap") * 5
+            w = min(cw, cwid + ov)
+            h = min(chh, chei + ov)
+        else:
+            w = 1 + ch.draw(cw, kind="rect_w")
+            h = 1 + ch.draw(chh, kind="rect_h")
+        if layout == 2:
+            c0 = min((k % gx) * cwid, cw - w)
+            r0 = min((k // gx) * chei, chh - h)
+        else:
+            c0 = ch.draw(cw - w + 1, kind="rect_x")
+            r0 = ch.draw(chh - h + 1, kind="rect_y")
         border = (0, 1, 3, 17)[ch.draw(4, kind="nan_border")]
         holes = ch.draw(2, kind="nan_holes")
         bottom_up = ch.draw(2, kind="bottom_up") == 1
